@@ -18,14 +18,14 @@ POP_TAG = b"BLS_POP_BLS12381G2_XMD:SHA-256_SSWU_RO_POP_"
 SUITES = ("basic", "aug", "pop")
 
 
-def keygen(ikm: bytes, key_info: bytes = b"", forced_zero_rounds: int = 0) -> int:
+def keygen(ikm: bytes, key_info: bytes = b"", forced_zero_rounds: int = 0, H=hashlib.sha256) -> int:
     """Draft v4 KeyGen. ``forced_zero_rounds`` models a run in which the first
     j candidate keys came out as 0 (used with fault injection)."""
     salt = b"BLS-SIG-KEYGEN-SALT-"
     sk = 0
     rounds = 0
     while sk == 0:
-        salt = hashlib.sha256(salt).digest()
+        salt = H(salt).digest()
         prk = hkdf_extract(salt, ikm + b"\x00")
         okm = hkdf_expand(prk, key_info + (48).to_bytes(2, "big"), 48)
         sk = int.from_bytes(okm, "big") % R
@@ -43,16 +43,37 @@ def sk_to_pk(sk: int) -> bytes:
     return zcash.enc_g1(sk_to_point(sk))
 
 
-def hash_point(msg: bytes, dst: bytes):
-    return h2c.hash_to_g2(msg, dst, hashlib.sha256)
+def hash_point(msg: bytes, dst: bytes, H=hashlib.sha256):
+    return h2c.hash_to_g2(msg, dst, H)
 
 
-def core_sign_point(sk, msg, dst):
-    return BLS_E2.mul(hash_point(msg, dst), sk)
+def core_sign_point(sk, msg, dst, H=hashlib.sha256):
+    return BLS_E2.mul(hash_point(msg, dst, H), sk)
 
 
-def core_sign(sk, msg, dst) -> bytes:
-    return zcash.enc_g2(core_sign_point(sk, msg, dst))
+def core_sign(sk, msg, dst, H=hashlib.sha256) -> bytes:
+    return zcash.enc_g2(core_sign_point(sk, msg, dst, H))
+
+
+# Parameters of a ciphersuite: kind decides the message transformation (aug: pk || msg) and the aggregate rules
+# (basic: distinct messages); custom suites (another hash function, other tags) are the same procedures with other constants.
+class SuiteParams:
+    def __init__(self, kind, H=hashlib.sha256, dst=None, pop_tag=None):
+        self.kind, self.H = kind, H
+        self.dst = DST[kind] if dst is None else dst
+        self.pop_tag = POP_TAG if pop_tag is None else pop_tag
+
+
+def sign_p(sp: "SuiteParams", sk: int, msg: bytes) -> bytes:
+    return core_sign(sk, augmented(sp.kind, sk_to_pk(sk), msg), sp.dst, sp.H)
+
+
+def sign_point_p(sp, sk, msg):
+    return core_sign_point(sk, augmented(sp.kind, sk_to_pk(sk), msg), sp.dst, sp.H)
+
+
+def pop_prove_p(sp, sk) -> bytes:
+    return core_sign(sk, sk_to_pk(sk), sp.pop_tag, sp.H)
 
 
 def augmented(suite, pk, msg):
